@@ -638,7 +638,9 @@ class C10(EvalProp):
     level_text = ("Coq theorems: the model of length/count/value in test_function.rs computes RFC 9535 2.4.4-2.4.6 for every argument form a "
                   "well-typed call can have (length of strings in scalar values, arrays, objects; count of a nodelist incl. 0; value of a "
                   "singleton nodelist); results flow into comparisons as ordinary values. match/search: model of prepare_regex plus an "
-                  "executable matcher for the modelled dialect, proved against the denotational semantics. Correspondence through the crate.")
+                  "executable matcher for the modelled dialect, proved against the denotational semantics. C10_string_level_calls: the TEXT of a "
+                  "filter that calls the five functions (every well-typed combination of literal, query and nested-call arguments) goes through "
+                  "the generated grammar, TestFunction::try_new and the evaluator and keeps exactly the children the RFC keeps. Correspondence through the crate.")
     level_note = "the regex crate is external: modelled on a stated dialect and validated by correspondence; patterns with escapes are the known class D14"
     rule = ("length/count/value over argument kinds x node counts 0/1/2+; match/search over enumerated patterns x subjects; "
             "non-trivial = RFC keeps at least one element")
@@ -835,7 +837,7 @@ class C06(ParseProp):
                   "hand model of parser.rs) is extracted and run against the crate on every generated sentence, together with an independent "
                   "reference recogniser of the RFC 9535 ABNF + validity rules written in Coq (Concrete.v). Coq theorems: Build accepts every "
                   "well-typed standard function call (C06_typing_partial); the whole pipeline accepts queries WITH filters nested to any depth (existence tests, comparisons of singular "
-                  "queries and int/string/bool/null literals, !, parentheses, &&, ||; C06_with_filters_partial) and the entire filter-free sublanguage in canonical "
+                  "queries, int/string/bool/null literals and well-typed calls of length/count/value/match/search, !, parentheses, &&, ||; C06_with_filters_partial) and the entire filter-free sublanguage in canonical "
                   "spelling -- any number of child/descendant segments, bracketed unions of quoted names, wildcards, indices and slices with any "
                   "subset of their parts, shorthand names, any integers of the I-JSON range -- and every Normalized Path, and reads each as the "
                   "right AST, also when written with any optional blank space at every S position (C06_filter_free_partial, "
@@ -1480,12 +1482,24 @@ class C08(ParseProp):
                       "$[?" + "!(" * depth + "@.a" + ")" * depth + "]", "$[?@" + "[?@" * (depth // 4) + "]" * (depth // 4) + "]", "$" + "..a" * min(depth, 100)):
                 out.append(Case("n%d" % j, "ROB", [S(q), nest_doc(8)], {"query": q[:60] + "...", "depth": depth}))
                 j += 1
-        for pat in ("(a*)*b", "(a|aa)+$", "a{1000}", "(a{1000}){1000}", "[", "(", "\\\\", "(?i)a", "\\\\p{Lu}+", "a**", "." * 2000, "(" * 300 + "a" + ")" * 300):
+        pats = ["(a*)*b", "(a|aa)+$", "a{1000}", "(a{1000}){1000}", "[", "(", "\\\\", "(?i)a", "\\\\p{Lu}+", "a**", "." * 2000, "(" * 300 + "a" + ")" * 300]
+        # patterns that are regular expressions by themselves but not once match() wraps them in ^(?:...)$, and the converse:
+        # group nesting on both sides of the regex crate's nest limit (wrapping adds one level), comments of the
+        # verbose mode swallowing the closing parenthesis, unbalanced parentheses that the wrapper would balance
+        pats += ["(" * d + "a" + ")" * d for d in range(244, 256)]
+        pats += ["(?:" * d + "a" + ")" * d for d in (248, 249, 250, 251)]
+        pats += ["(?x)a # c", "(?x)a#", "a(?x) # c", "(?x:a # c", "(?x)a #)", "(?x) # (", "(?s-x)a # c", "a)(?:b", ")(", "a)|(b", "(?:a", "a)", "^(?:a", "a)$"]
+        for pat in pats:
             q = "$[?match(@, '%s')]" % pat
             out.append(Case("r%d" % j, "ROB", [S(q), ("a", S("a" * 2000), S("b"), ("i", 1))], {"query": q[:80]}))
             q = "$[?search(@, '%s')]" % pat
             out.append(Case("r%d" % (j + 1), "ROB", [S(q), ("a", S("a" * 2000), S("b"), ("i", 1))], {"query": q[:80]}))
             j += 2
+        # the same patterns taken from the document
+        pdoc = ("a",) + tuple(o_(s=S("a"), p=S(pat)) for pat in pats if len(pat) < 1200)
+        for q in ("$[?match(@.s, @.p)]", "$[?search(@.s, @.p)]", "$[?!match(@.p, @.p)]"):
+            out.append(Case("r%d" % j, "ROB", [S(q), pdoc], {"query": q}))
+            j += 1
         # programmatically built queries with integers in the I-JSON range
         ga = gen.Gen(self.rng, gen.Profile(odd_names=True, hostile_names=True, programmatic=True, custom=True, regex=True))
         for k in range(n // 4):
